@@ -291,7 +291,7 @@ func (s *sim) userWrite(where string, rng *rand.Rand) {
 		s.table.Insert(w, o)
 		s.mu.Lock()
 		s.r2done[id] = cur.Payload
-		s.touches = append(s.touches, userWrite{Seq: s.nextSeq(), At: s.now(), ID: id})
+		s.touches = append(s.touches, userWrite{Seq: s.nextSeq(), At: s.now(), ID: id, Rev: s.table.Revision(w)})
 		if _, ok := s.modelRev[id]; ok {
 			s.modelRev[id] = s.table.Revision(w) // a status-only write is also a change of the object (new revision)
 		}
@@ -926,7 +926,9 @@ func (s *sim) pacingChecks() {
 				// committed because of it the object is still pending and is reconciled again at once as a change; if the
 				// Error status was already committed the reconciler ignores the write and the retry stays paced. Both are
 				// legitimate, so this pair is not judged and the streak becomes unknown.
-				if w.ID == id && w.Seq > p.Seq && w.Seq < c.Seq {
+				// (also a write made before the failed attempt began but after the snapshot it worked on: the attempt was given
+				// revision p.Rev, the write produced a later one)
+				if w.ID == id && w.Seq < c.Seq && (w.Seq > p.Seq || w.Rev > p.Rev) {
 					touched = true
 				}
 			}
